@@ -221,6 +221,7 @@ func (mo *c18Mon) mutate(sc *c18Scenario, it *c18Item, now time.Time, donorSig [
 	lay := c18FindLayout(it.enc)
 	restore := asserts.MockTimeNow(now)
 	defer restore()
+	kn := mo.newKnown(sc, it, now)
 
 	eval := func(m *c18Mutant) {
 		c.Eval()
@@ -231,6 +232,7 @@ func (mo *c18Mon) mutate(sc *c18Scenario, it *c18Item, now time.Time, donorSig [
 			c.Count("mutant_does_not_decode", 1)
 			return
 		}
+		var judgedKnown [][2][]byte
 		for _, path := range []string{"Decode", "Decoder"} {
 			a2 := decoded[path]
 			if a2 == nil {
@@ -254,6 +256,25 @@ func (mo *c18Mon) mutate(sc *c18Scenario, it *c18Item, now time.Time, donorSig [
 			c.Count("mutant_claims", 1)
 			c.Count("mutant_claims_region:"+m.Region, 1)
 			c.Count("mutant_claims_changed:"+what, 1)
+			// the same mutant against databases that already hold the genuine
+			// assertion (once per distinct decoding; not for the exhaustive bit sweep)
+			if m.Op != "sweep-flip-b64-bit" {
+				seen := false
+				for _, j := range judgedKnown {
+					seen = seen || (bytes.Equal(j[0], content2) && bytes.Equal(j[1], sig2))
+				}
+				if !seen {
+					judgedKnown = append(judgedKnown, [2][]byte{content2, sig2})
+					sigField := ""
+					if contentSame {
+						sigField = "undecodable"
+						if derr == nil {
+							sigField = c18SigDiffField(dec0, dec2)
+						}
+					}
+					kn.judge(m, path, a2, what, sigField)
+				}
+			}
 			errC := sc.db.Check(a2)
 			errA := sc.db.WithStackedBackstore(asserts.NewMemoryBackstore()).Add(a2)
 			if errC != nil && errA != nil {
@@ -303,6 +324,11 @@ func (mo *c18Mon) mutate(sc *c18Scenario, it *c18Item, now time.Time, donorSig [
 	for _, m := range c18Structural(it.enc, lay, donorSig, rng) {
 		eval(m)
 	}
+	// replay forgeries: own random stream, so the case lists above are unchanged
+	for _, m := range c18ReplayForgeries(sc, it, lay, kit.CaseRand("c18-replay", sc.Idx*1000+it.Idx)) {
+		c.Count("replay_forgeries", 1)
+		eval(m)
+	}
 	if sweep {
 		c.Count("signature_sweeps", 1)
 		c18SigSweep(it.enc, lay, eval)
@@ -317,7 +343,8 @@ func TestVerifC18(t *testing.T) {
 		"each with a generated since/until window (forever, 1 s .. 400 d, empty, sub-second) and optional constraints; 8 assertion types signed by an own key, a key of another account, " +
 		"another private key under an own key's id, or carrying a signature grafted from another assertion; timestamps and the clock placed at since-1s/-1ns/since/+1s/mid/until-1s/-1ns/until/+1s/far. " +
 		"Non-trivial evaluation signature = (type, signer relation, key location, window class, constrained, timestamp class, clock class, mode, reference verdict). " +
-		"A mutant is non-trivial when it still decodes (Decode or stream Decoder) and its signed content or decoded signature differs from the original; signature = (type, region, operation, decoder, what changed).")
+		"A mutant is non-trivial when it still decodes (Decode or stream Decoder) and its signed content or decoded signature differs from the original; signature = (type, region, operation, decoder, what changed). "+
+		"Replay stream: every such mutant except the exhaustive signature bit sweep, plus 'replay' forgeries (signature bytes and primary key kept; revision raised/equal/lowered combined with header value edits, header deletion/addition, body edits, format, authority or signing key swapped), is also judged on databases that already hold the genuine assertion (stored, stacked-under, predefined, trusted); signature = (type, where the genuine one is held, region, operation, decoder, what changed).")
 	c.Assume("RSA-1024 test keys are generated per process with crypto/rand and OpenPGP signatures embed the real creation time, so key ids and signature bytes are not a function of the seed; every other choice (scenario, windows, headers, clock values, mutation sites) is.")
 	c.Assume("Infrastructure assertions (accounts, account-keys, one snap-declaration) are placed into the backstores directly, without Check; the statement is about the assertion being checked, not its key's own chain.")
 	c.Assume("'decoded signature' = standard base64 decoding of the signature part; SetEarliestTime mode: the key must not be expired at the earliest time (no claim for keys with an empty window).")
@@ -353,6 +380,18 @@ func TestVerifC18(t *testing.T) {
 		c.Floor("life_first_uses_after_several_revisions", 5)
 		for _, r := range c18RegionNames {
 			c.Floor("mutants_region:"+r, 300)
+		}
+		c.Floor("mutants_region:replay", 1000)
+		c.Floor("known_claims", 5000)
+		c.Floor("known_rejected", 5000)
+		c.Floor("known_claims_changed:content", 2000)
+		c.Floor("known_claims_changed:signature", 1000)
+		c.Floor("known_control_forged_first_rejected_then_genuine_added", 1000)
+		for _, w := range []string{"stored", "stacked-under", "predefined", "trusted"} {
+			c.Floor("known_claims_where:"+w, 300)
+		}
+		for _, r := range []string{"revision-equal", "revision-raised", "revision-raised-far", "revision-lowered"} {
+			c.Floor("known_claims_replay_revision:"+r, 100)
 		}
 		// separator and body-length byte mutants practically never decode
 		for _, r := range []string{"header-name", "header-value", "header-syntax", "header-entry", "body", "signature"} {
